@@ -20,7 +20,8 @@ import (
 // ---- C07: requests run in the client's current keyspace, protocol version and compression ----
 
 type c07Action struct {
-	Op      string `json:"op"` // use | data | parallel_use | reconnect
+	Op      string `json:"op"` // use | data | parallel_use | reconnect | backend_loss
+	Host    int    `json:"host,omitempty"` // backend_loss: the host whose connections are dropped
 	Client  int    `json:"client"`
 	Use     string `json:"use,omitempty"`     // keyspace as spelled by the client
 	Kind    string `json:"kind,omitempty"`    // data: query | prepare | execute | batch
@@ -129,6 +130,7 @@ func c07Check(c c07Case) *evid.Fail {
 		}
 		return model[ci], nil
 	}
+	lossSince := false // a backend_loss happened: a request may meet a pool that is still reconnecting
 	for ai, a := range c.Actions {
 		switch a.Op {
 		case "reconnect":
@@ -136,6 +138,33 @@ func c07Check(c c07Case) *evid.Fail {
 			if f := connect(a.Client); f != nil {
 				return f
 			}
+		case "backend_loss":
+			// every backend connection of one host is lost; the proxy replaces them, and the replacements must be in
+			// the keyspace (version, compression) of the session they belong to
+			h := a.Host % c.Hosts
+			e.Cluster.Host(h).DropConns(nil)
+			stallReset()
+			// wait until the host's connection count has settled (connections left behind by sessions that never came
+			// up are not replaced, so the count before the loss is no yardstick); a request that still meets a pool
+			// without a usable connection is skipped below
+			deadline := time.Now().Add(posWait)
+			last, stable := -1, 0
+			for stable < 5 && time.Now().Before(deadline) {
+				n := 0
+				for _, cn := range e.Cluster.Host(h).Conns() {
+					if cn.IsStarted() {
+						n++
+					}
+				}
+				if n == last && n > 0 {
+					stable++
+				} else {
+					stable = 0
+				}
+				last = n
+				time.Sleep(6 * time.Millisecond)
+			}
+			lossSince = true
 		case "use":
 			nk, f := use(a.Client, a.Use)
 			if f != nil {
@@ -203,6 +232,9 @@ func c07Check(c c07Case) *evid.Fail {
 				if err != nil {
 					return evid.Failf("undecodable", "%s: %v", where, err)
 				}
+				if em, isErr := b.Message.(message.Error); isErr && lossSince && strings.Contains(em.GetErrorMessage(), "no more hosts") {
+					continue
+				}
 				if _, ok := b.Message.(*message.PreparedResult); !ok {
 					return evid.Failf("data-failed:prepare", "%s: answered with %v", where, b.Message)
 				}
@@ -231,6 +263,9 @@ func c07Check(c c07Case) *evid.Fail {
 				ri, err := r.reply(rp)
 				if err != nil {
 					return evid.Failf("undecodable", "%s: %v", where, err)
+				}
+				if ri.Echo == nil && lossSince && ri.IsError && strings.Contains(ri.Text, "no more hosts") {
+					continue // the session's replacement connections are not usable yet (the backend sees them before the pool does)
 				}
 				if ri.Echo == nil || ri.Echo.Tok != tok {
 					return evid.Failf("data-failed:"+a.Kind, "%s: answered with %v", where, ri)
@@ -307,6 +342,9 @@ func c07Gen(rt *rapid.T) c07Case {
 			a.Clients = rapid.SliceOfNDistinct(rapid.IntRange(0, nc-1), k, k, func(i int) int { return i }).Draw(rt, "parallelclients")
 		case 4:
 			a.Op = "reconnect"
+			if rapid.IntRange(0, 4).Draw(rt, "backendloss") == 0 {
+				a.Op, a.Host = "backend_loss", rapid.IntRange(0, 3).Draw(rt, "losshost")
+			}
 		default:
 			a.Op, a.Kind = "data", rapid.SampledFrom([]string{"query", "query", "prepare", "execute", "batch"}).Draw(rt, "kind")
 		}
@@ -317,7 +355,7 @@ func c07Gen(rt *rapid.T) c07Case {
 
 func TestC07(t *testing.T) {
 	rec := evid.New("C07", "exploration",
-		"histories over 2..5 clients with different protocol versions (v3,v4,v5,DSEv1,DSEv2) and compressions against a backend with a generated keyspace set (lower-case, mixed-case and quote-requiring names): USE in every spelling (unquoted, upper-cased, quoted exact, quoted wrong case, non-existent), tokenised QUERY/PREPARE/EXECUTE/BATCH, several clients switching to the same keyspace at the same instant, reconnects; "+
+		"histories over 2..5 clients with different protocol versions (v3,v4,v5,DSEv1,DSEv2) and compressions against a backend with a generated keyspace set (lower-case, mixed-case and quote-requiring names): USE in every spelling (unquoted, upper-cased, quoted exact, quoted wrong case, non-existent), tokenised QUERY/PREPARE/EXECUTE/BATCH, several clients switching to the same keyspace at the same instant, client reconnects, loss and replacement of all backend connections of a host; "+
 			"oracle: model = per-client (version, compression, current keyspace under Cassandra's identifier rule); every data request must arrive on a backend connection with that keyspace/version/compression, USE replies SET_KEYSPACE with the folded name or the backend's error and leaves the model unchanged; "+
 			"non-trivial = >=2 clients hold different keyspaces at a data request, a data request after a failed USE, or a parallel USE; distinct by case content")
 	defer finish(t, rec)
@@ -353,6 +391,9 @@ func TestC07(t *testing.T) {
 					}
 				}
 				labels = append(labels, a.Op+":"+useClass(a.Use)+":"+map[bool]string{true: "exists", false: "missing"}[exists[id]])
+			case "backend_loss":
+				labels = append(labels, "backend-loss")
+				nontrivial = true
 			case "reconnect":
 				model[a.Client] = ""
 				failedBefore[a.Client] = false
